@@ -167,6 +167,7 @@ impl Property for C16 {
         spec.seed_version_sets.sort();
         spec.seed_version_sets.dedup();
         spec.serde_cycles = r.below(3) as u8;
+        spec.timeout_after = if r.chance(1, 3) { Some(r.below(4)) } else { None };
         let (names, solv, vss) = closure(&w, &spec);
         let names_v: Vec<u32> = names.iter().copied().collect();
         let n_adds = r.below(4);
@@ -304,6 +305,9 @@ impl Property for C16 {
             if !spec.adds.is_empty() {
                 m.insert("add_package_requirement", spec.adds.len() as u64);
             }
+            if spec.timeout_after.is_some() {
+                m.insert("with_timeout_between_adds", 1);
+            }
             if rec_stats.completions > 0 {
                 m.insert("reorder", rec_stats.completions);
             }
@@ -418,8 +422,15 @@ impl Property for C16 {
         for (pi, sp) in problems.iter().enumerate() {
             let r = catch_unwind(AssertUnwindSafe(|| -> Result<Option<(ProblemSpec, Result<Vec<u32>, bool>)>, (String, String)> {
                 let mut prov = snap.provider();
+                let far = std::time::SystemTime::now() + std::time::Duration::from_secs(86_400);
                 let mut added_ids: Vec<u32> = Vec::new();
-                for (n, matcher) in &spec.adds {
+                if spec.timeout_after == Some(0) {
+                    prov = prov.with_timeout(far);
+                }
+                for (ai, (n, matcher)) in spec.adds.iter().enumerate() {
+                    if ai > 0 && spec.timeout_after == Some(ai) {
+                        prov = prov.with_timeout(far);
+                    }
                     let id = prov.add_package_requirement(NameId(*n), matcher);
                     if vss.contains(&id.0) {
                         return Err(("added-id-aliases-captured".into(), format!("add_package_requirement returned id {} which is a captured version set", id.0)));
@@ -589,7 +600,7 @@ async fn do_op(cache: &SolverCache<SimProvider>, w: &World, core: &crate::core::
                 }
                 None
             }
-            Err(_) => Some(("spurious-cancel".into(), "cache query returned Err without cancellation".into())),
+            Err(_) => cancelled_ok(core),
         },
         CacheOp::Matching(x) => match cache.get_or_cache_matching_candidates(VersionSetId(*x)).await {
             Ok(c) => {
@@ -600,7 +611,7 @@ async fn do_op(cache: &SolverCache<SimProvider>, w: &World, core: &crate::core::
                 }
                 None
             }
-            Err(_) => Some(("spurious-cancel".into(), "cache query returned Err without cancellation".into())),
+            Err(_) => cancelled_ok(core),
         },
         CacheOp::NonMatching(x) => match cache.get_or_cache_non_matching_candidates(VersionSetId(*x)).await {
             Ok(c) => {
@@ -611,7 +622,7 @@ async fn do_op(cache: &SolverCache<SimProvider>, w: &World, core: &crate::core::
                 }
                 None
             }
-            Err(_) => Some(("spurious-cancel".into(), "cache query returned Err without cancellation".into())),
+            Err(_) => cancelled_ok(core),
         },
         CacheOp::Sorted(r) => match cache.get_or_cache_sorted_candidates(to_requirement(r)).await {
             Ok(c) => {
@@ -623,7 +634,7 @@ async fn do_op(cache: &SolverCache<SimProvider>, w: &World, core: &crate::core::
                 }
                 None
             }
-            Err(_) => Some(("spurious-cancel".into(), "cache query returned Err without cancellation".into())),
+            Err(_) => cancelled_ok(core),
         },
         CacheOp::Deps(s) => match cache.get_or_cache_dependencies(SolvableId(*s)).await {
             Ok(d) => {
@@ -634,7 +645,7 @@ async fn do_op(cache: &SolverCache<SimProvider>, w: &World, core: &crate::core::
                 }
                 None
             }
-            Err(_) => Some(("spurious-cancel".into(), "cache query returned Err without cancellation".into())),
+            Err(_) => cancelled_ok(core),
         },
         CacheOp::Available(s) => {
             let got = cache.are_dependencies_available_for(SolvableId(*s));
@@ -668,6 +679,15 @@ async fn do_op(cache: &SolverCache<SimProvider>, w: &World, core: &crate::core::
             }
             None
         }
+    }
+}
+
+/// An `Err` from a cache query is legitimate only if the cancellation fault fired.
+fn cancelled_ok(core: &crate::core::SimCore) -> Option<(String, String)> {
+    if core.stats.borrow().cancel_fired > 0 {
+        None
+    } else {
+        Some(("spurious-cancel".into(), "cache query returned Err without cancellation".into()))
     }
 }
 
@@ -758,7 +778,15 @@ impl Property for C20 {
         };
         sc.reentrant_sort = r.chance(1, 3);
         sc.hash_salt = Rng::stream(seed, "hash_salt").next_u64();
-        sc.extra = Some(Extra::Cache(CacheSpec { clients }));
+        let cancel = if r.chance(1, 4) {
+            Some(crate::core::CancelPlan {
+                at_poll: r.below(6) as u64,
+                mode: if r.chance(1, 2) { crate::core::CancelMode::Transient } else { crate::core::CancelMode::Persistent },
+            })
+        } else {
+            None
+        };
+        sc.extra = Some(Extra::Cache(CacheSpec { clients, cancel }));
         vec![sc]
     }
     fn judge(&self, sc: &Scenario) -> Verdict {
@@ -787,7 +815,9 @@ impl Property for C20 {
         let cache = SolverCache::new(provider);
         let rt = SimRuntime { core: core.clone() };
         let res = catch_unwind(AssertUnwindSafe(|| {
-            // phase 1: concurrent clients
+            // phase 1: concurrent clients (optionally with a cancellation fault)
+            *core.cancel_plan.borrow_mut() = spec.cancel.clone();
+            core.cancel_polls.set(0);
             let mut found: Option<(String, String)> = None;
             let mut answers1: Vec<Vec<String>> = Vec::new();
             let mut held: Vec<(&[SolvableId], Vec<u32>)> = Vec::new();
@@ -815,6 +845,8 @@ impl Property for C20 {
                     }
                 }
             }
+            *core.cancel_plan.borrow_mut() = None;
+            let cancelled = core.stats.borrow().cancel_fired > 0;
             if found.is_some() {
                 return found;
             }
@@ -836,7 +868,7 @@ impl Property for C20 {
                 for op in ops {
                     if matches!(op, CacheOp::Available(_)) {
                         // availability legitimately changes as more metadata arrives
-                        answers.push(answers1[ci].get(answers.len()).cloned().unwrap_or_default());
+                        answers.push(answers1.get(ci).and_then(|a| a.get(answers.len())).cloned().unwrap_or_default());
                         continue;
                     }
                     let r = rt.block_on(do_op(&cache, w, &core, op, &mut answers));
@@ -844,12 +876,12 @@ impl Property for C20 {
                         return r;
                     }
                 }
-                if answers != answers1[ci] {
+                if !cancelled && answers != answers1[ci] {
                     return Some(("repeat-differs".into(), format!("client {ci}: repeated queries answered {answers:?}, first time {:?}", answers1[ci])));
                 }
             }
             let log = core.log.borrow();
-            for e in log.iter().skip(before) {
+            for e in log.iter().skip(if cancelled { usize::MAX } else { before }) {
                 if let Ev::Start { kind, arg, .. } = e {
                     return Some(("repeat-consults-provider".into(), format!("a repeated query called the provider again: {kind:?}({arg})")));
                 }
